@@ -142,6 +142,8 @@ func (p *TransportLayerNack) Unmarshal(rawPacket []byte) error {
 
 	p.SenderSSRC = binary.BigEndian.Uint32(rawPacket[headerLength:])
 	p.MediaSSRC = binary.BigEndian.Uint32(rawPacket[headerLength+ssrcLength:])
+	// pairs left over from an earlier Unmarshal into the same value are not part of this packet
+	p.Nacks = nil
 	for i := headerLength + nackOffset; i < (headerLength + int(h.Length*4)); i += 4 {
 		p.Nacks = append(p.Nacks, NackPair{
 			binary.BigEndian.Uint16(rawPacket[i:]),
